@@ -412,6 +412,10 @@ func (s *Server) FsCount() (int64, error) {
 func (s *Server) FsArm(k, torn int64) error {
 	return s.Ctl("POST", fmt.Sprintf("/verif/fs/arm?k=%d&torn=%d", k, torn), "", nil)
 }
+// FsArmPattern: die before the n-th mutation of the given kind whose path contains substr.
+func (s *Server) FsArmPattern(kind, substr, not string, n int64) error {
+	return s.Ctl("POST", fmt.Sprintf("/verif/fs/armpat?kind=%s&path=%s&not=%s&n=%d", url.QueryEscape(kind), url.QueryEscape(substr), url.QueryEscape(not), n), "", nil)
+}
 func (s *Server) Points(spec string) error { return s.Ctl("POST", "/verif/points", spec, nil) }
 
 // DieLog returns what the VFS recorder wrote before killing the process ("" if none)
